@@ -57,7 +57,8 @@ Init ==
   /\ frames = <<Frame(case.g[1], case.sel, <<>>, FALSE)>>
   /\ visits = <<>> /\ loads = <<>>
   /\ nb = case.cfg.nb /\ lb = case.cfg.lb
-  /\ seen = {} /\ err = <<>> /\ done = FALSE
+  /\ seen = {} /\ err = <<>>
+  /\ done = ~Compiles(case.sel, FALSE)      \* a selector that does not compile is never walked
 
 Top == frames[Len(frames)]
 Pop == SubSeq(frames, 1, Len(frames) - 1)
@@ -150,7 +151,11 @@ VisitedPathsResolve ==
 
 \* a walk visits each path in document (pre-)order: no visit's path is a proper prefix of an EARLIER one
 IsPrefix(p, q) == Len(p) <= Len(q) /\ SubSeq(q, 1, Len(p)) = p
+\* (a union whose members name the same field explores that field once PER member -- the members' interests are
+\* concatenated, as in the code -- so a path can be visited twice; the order statement is about walks that do not)
+NoPathTwice == \A i, j \in DOMAIN visits : i # j => visits[i].path # visits[j].path
 ParentsBeforeChildren ==
+  NoPathTwice =>
   \A i, j \in DOMAIN visits : (i < j) => ~(IsPrefix(visits[j].path, visits[i].path) /\ visits[j].path # visits[i].path)
 
 BudgetRespected ==
